@@ -3,6 +3,7 @@ package props
 import (
 	"bytes"
 	"context"
+	"crypto/ed25519"
 	"crypto/sha256"
 	"encoding/binary"
 	"fmt"
@@ -59,6 +60,7 @@ func genC12(seed uint64, index int, tier string) *run.Plan {
 	p.P["think_max_us"] = p.P["think_min_us"] + []int{0, 500, 20000, 200000}[g.Intn(4)]
 	span := []int{1, 50, 2000, 8000, 25000}[g.Intn(5)]
 	p.P["span_ms"] = span
+	p.P["auth"] = g.Intn(5) / 4
 	for c := 0; c < callers; c++ {
 		n := 1 + g.Intn(6)
 		for i := 0; i < n; i++ {
@@ -219,7 +221,12 @@ func execC12(t *testing.T, w *core.World, p *run.Plan, r *run.Result) {
 	w.At(0, "setup", func() {
 		go func() {
 			w.Tag("setup")
-			conn, err := liteclient.NewConnection(context.Background(), srv.Key.Pub, "sim:0")
+			var authKeys []ed25519.PrivateKey
+			if p.Get("auth", 0) == 1 {
+				// the optional client authentication (tcp.authentificate): every (re)connect goes through the extra exchange
+				authKeys = append(authKeys, ed25519.NewKeyFromSeed(core.NewRng(core.Mix(p.Seed, 4242)).Bytes(32)))
+			}
+			conn, err := liteclient.NewConnection(context.Background(), srv.Key.Pub, "sim:0", authKeys...)
 			if err != nil {
 				mu.Lock()
 				setupErr, setupDone = err, true
@@ -663,6 +670,13 @@ func execC12(t *testing.T, w *core.World, p *run.Plan, r *run.Result) {
 		if h.Dials != dialsAtReady {
 			w.Violate("C12.F", "C12.F|reconnect|faultfree", fmt.Sprintf("%d extra dials in a fault-free run", h.Dials-dialsAtReady))
 		}
+	}
+	// W: nothing altered the client's bytes on these connections, so every frame the spec server completed must have
+	// been well-formed (a frame the client garbled itself - a stream cipher out of step, a half-written frame that
+	// was continued - is not "received with exactly the payload that was sent")
+	for _, g := range srv.GarbageFromClient {
+		w.Violate("C12.wire", "C12.wire|client-sent-garbage", "the server's ADNL receiver rejected a frame on a connection whose client-to-server bytes were not altered in transit: "+g)
+		break
 	}
 	// G3: whatever happened in between, a healthy client at the end of the drain runs the goroutines a healthy client
 	// ran after the setup; a kind of goroutine of the library that there are two or more of in excess is a leak
